@@ -1,0 +1,15 @@
+//go:build verif
+
+package sql
+
+import "go/types"
+
+// Hooks for the verification harness in /verif. Compiled only with `-tags verif`.
+
+func VerifIsUniquesConstraint(ct string) []string { return isUniquesConstraint(ct) }
+func VerifIsUniqueConstraint(ct string) string    { return isUniqueConstraint(ct) }
+func VerifIsSelectKey(ct string) []string         { return isSelectKey(ct) }
+
+func VerifNewCustomQuery(columsByName map[string]types.Type, comment string) CustomQuery {
+	return newCustomQuery(columsByName, comment)
+}
